@@ -1,7 +1,7 @@
 ------------------------------- MODULE MiniJS -------------------------------
 (* Small-step reference machine for the MiniJS fragment (DESIGN 4.2, appendix A.1).        *)
 (*                                                                                         *)
-(*   state  st = [ctl, env, k, heap, log, steps, hist, hs, devs, fired, flag, out]         *)
+(*   state  st = [ctl, env, k, heap, log, steps, hist, cs, devs, fired, flag, out]         *)
 (*   ctl    = [m |-> "S", s, labs] | [m |-> "E", x] | [m |-> "V", v] | [m |-> "C", c]      *)
 (*            | [m |-> "halt"]                                                             *)
 (*   env    = heap address of the current environment record                              *)
@@ -11,6 +11,8 @@
 (*            activation.                                                                  *)
 (*   log    = values passed to the host function log(v), projected (references by kind)    *)
 (*   hist   = history counters per activation of a try statement that has a finally        *)
+(*   cs     = catch scopes already created per (environment, try statement): as-is rule     *)
+(*            Dev_CatchParamShared only                                                     *)
 (*   devs   = set of named deviations switched on ({} = ECMAScript reference semantics)     *)
 (*   fired  = deviations whose as-is rule was reached and changed something on this run     *)
 (*                                                                                         *)
@@ -199,22 +201,32 @@ CallClosure(st, fref, args) ==
       fn  == clo.fn
       fds == FunDecls(fn.body)
       base == Len(st.heap)
+      \* Dev_ArrowArguments (as-is): an arrow function gets an arguments object of its own, like any other function
+      \* (ECMAScript: `arguments` inside an arrow is the binding of the enclosing function, or unbound at script level)
+      ownargs == ~fn.arrow \/ D(st, "Dev_ArrowArguments")
       argsAddr == base + 1
-      envAddr == IF fn.arrow THEN base + 1 ELSE base + 2
+      envAddr == IF ownargs THEN base + 2 ELSE base + 1
       hoist == ~D(st, "Dev_NoFnHoist")
       PS == {fn.params[j] : j \in 1..Len(fn.params)}
       FS == {fds[j].name : j \in 1..Len(fds)}
-      AS == IF fn.arrow THEN {} ELSE {"arguments"}
+      AS == IF ownargs THEN {"arguments"} ELSE {}
+      VS == VarNamesL(fn.body)
+      \* Dev_OwnNameSlot (as-is): a `var` of the body that has the function's own name starts as the function itself
+      \* (the own name and the variable share one slot; ECMAScript: the variable shadows the name and starts undefined)
+      ownslot == D(st, "Dev_OwnNameSlot") /\ ~fn.arrow /\ fn.name # "" /\ fn.name \in VS \ (PS \cup FS \cup AS)
       ArgFor(x) == LET j == LastIdx(fn.params, LAMBDA p : p = x) IN Arg(args, j)
-      vars == [x \in PS \cup FS \cup AS \cup VarNamesL(fn.body) |->
+      vars == [x \in PS \cup FS \cup AS \cup VS |->
                  IF x \in FS /\ hoist THEN VRef(envAddr + LastIdx(fds, LAMBDA d : d.name = x))
                  ELSE IF x \in PS THEN ArgFor(x)
-                 ELSE IF x \in AS THEN VRef(argsAddr) ELSE VUndef]
-      recs == (IF fn.arrow THEN <<>> ELSE <<HArr(args)>>) \o <<HEnv(vars, clo.env)>>
+                 ELSE IF x \in AS THEN VRef(argsAddr)
+                 ELSE IF ownslot /\ x = fn.name THEN VRef(fref) ELSE VUndef]
+      envrec == IF fn.arrow THEN [h |-> "env", vars |-> vars, par |-> clo.env, arrow |-> TRUE] ELSE HEnv(vars, clo.env)
+      recs == (IF ownargs THEN <<HArr(args)>> ELSE <<>>) \o <<envrec>>
               \o (IF hoist THEN [j \in 1..Len(fds) |-> HFun(FdeclAsFun(fds[j]), envAddr)] ELSE <<>>)
       s1 == Alloc(st, recs)
       s2 == IF ~hoist /\ Len(fds) > 0 THEN Fire(s1, "Dev_NoFnHoist") ELSE s1
-  IN Ex(Push([s2 EXCEPT !.env = envAddr], [f |-> "callret", env |-> st.env]), SBlock(fn.body))
+      s3 == IF ownslot THEN Fire(s2, "Dev_OwnNameSlot") ELSE s2
+  IN Ex(Push([s3 EXCEPT !.env = envAddr], [f |-> "callret", env |-> st.env]), SBlock(fn.body))
 
 RECURSIVE NatIter(_), DoCall(_, _, _, _, _)
 \* st has a "nat" frame on top: run the callback on the next element, or finish
@@ -351,7 +363,8 @@ StepE(st, x) ==
     [] x.e = "undef" -> Ret(st, VUndef)
     [] x.e = "null" -> Ret(st, VNull)
     [] x.e = "var" -> LET a == LookupEnv(st.heap, st.env, x.x) IN
-                      IF a # 0 THEN Ret(st, st.heap[a].vars[x.x])
+                      IF a # 0 THEN Ret(IF x.x = "arguments" /\ "arrow" \in DOMAIN st.heap[a] THEN Fire(st, "Dev_ArrowArguments") ELSE st,
+                                        st.heap[a].vars[x.x])
                       ELSE IF x.x \in BuiltinNames THEN Ret(st, Builtin(x.x))
                       ELSE ThrowErr(FireUnbound(st, x.x), "ReferenceError", x.nid)
     [] x.e = "bin" -> Ev(Push(st, [f |-> "binl", o |-> x.o, r |-> x.r]), x.l)
@@ -510,8 +523,18 @@ StepC(st, c) ==
                                                    \* level - a slot of the script that later script-level code sees and functions do not
               THEN LET s1 == IF fr.t.cv \in DOMAIN st.heap[st.env].vars \/ st.env = st.pl THEN Fire(s0, "Dev_CatchParamScope") ELSE s0
                    IN Ex(Push([s1 EXCEPT !.heap[st.env].vars = (fr.t.cv :> c.v) @@ @], [fr EXCEPT !.ph = "catch"]), fr.t.c)
-              ELSE LET a == Len(st.heap) + 1 IN                                   \* catch: fresh scope for the parameter
-              Ex(Push(Push(Alloc([s0 EXCEPT !.env = a], <<HEnv((fr.t.cv :> c.v), st.env)>>),
+              ELSE LET a == Len(st.heap) + 1                                      \* catch: fresh scope for the parameter
+                       \* Dev_CatchParamShared (as-is): the parameter of a catch clause is one variable per activation of the
+                       \* enclosing function: entering the clause again stores into the binding that closures of earlier entries
+                       \* captured (clauses are told apart structurally: identical clauses in one function are never generated)
+                       S == IF D(st, "Dev_CatchParamShared") THEN {j \in 1..Len(st.cs) : st.cs[j].env = st.env /\ st.cs[j].t = fr.t} ELSE {}
+                   IN IF S # {}
+                      THEN LET old == st.cs[CHOOSE j \in S : TRUE].a IN
+                           Ex(Push(Push([Fire(s0, "Dev_CatchParamShared") EXCEPT !.env = old, !.heap[old].vars = (fr.t.cv :> c.v)],
+                                        [fr EXCEPT !.ph = "catch"]), [f |-> "scope", env |-> st.env]), fr.t.c)
+                      ELSE
+              Ex(Push(Push(Alloc([s0 EXCEPT !.env = a, !.cs = IF D(st, "Dev_CatchParamShared") THEN Append(@, [env |-> st.env, t |-> fr.t, a |-> a]) ELSE @],
+                                 <<HEnv((fr.t.cv :> c.v), st.env)>>),
                            [fr EXCEPT !.ph = "catch"]), [f |-> "scope", env |-> st.env]), fr.t.c)
          ELSE IF fr.t.f.s # "none"
          THEN Ex(Push([s0 EXCEPT !.hist[fr.id].fin = @ + 1], [f |-> "fin", pend |-> UpdateEmpty(c, VUndef), id |-> fr.id]), fr.t.f)
@@ -550,7 +573,7 @@ InitState(prog, devs) ==
       heap == IF slots THEN Append(heap0, HEnv([x \in {} |-> VUndef], 1)) ELSE heap0
       pl == IF slots THEN Len(heap) ELSE 0
   IN [ctl |-> [m |-> "S", s |-> SBlock(body), labs |-> {}], env |-> IF slots THEN pl ELSE 1, pl |-> pl, k |-> <<>>, heap |-> heap, log |-> <<>>,
-      steps |-> 0, hist |-> <<>>, devs |-> devs, fired |-> {}, flag |-> "", out |-> [o |-> "none"],
+      steps |-> 0, hist |-> <<>>, cs |-> <<>>, devs |-> devs, fired |-> {}, flag |-> "", out |-> [o |-> "none"],
       hv |-> VarNamesL(body), hf |-> {fds[j].name : j \in 1..Len(fds)}]
 
 \* ---------------- invariants of the machine (checked on every state of every run) ------------------------------------------
